@@ -7,6 +7,7 @@ toolchain go1.23.5
 require (
 	github.com/ThreeDotsLabs/watermill v0.0.0
 	github.com/anishathalye/porcupine v1.3.0
+	github.com/gogo/protobuf v1.3.2
 	github.com/pkg/errors v0.9.1
 	github.com/sony/gobreaker v1.0.0
 	golang.org/x/tools v0.29.0
@@ -18,7 +19,6 @@ require (
 	github.com/cenkalti/backoff/v3 v3.2.2 // indirect
 	github.com/cespare/xxhash/v2 v2.3.0 // indirect
 	github.com/go-chi/chi/v5 v5.1.0 // indirect
-	github.com/gogo/protobuf v1.3.2 // indirect
 	github.com/google/uuid v1.6.0 // indirect
 	github.com/hashicorp/errwrap v1.1.0 // indirect
 	github.com/hashicorp/go-multierror v1.1.1 // indirect
